@@ -229,6 +229,11 @@ pub fn run(ctx: &mut Ctx) {
         }
         ctx.begin(i);
         let mut l = logical_for(ctx, "c01", i);
+        if i % 160 == 150 {
+            // tiles above 2^24 bytes that are still reader-backed when the archive is written (two-session build)
+            let len = (1usize << 24) + 4097 + (i as usize % 1000);
+            l = gen::gen_huge_tiles(&mut ctx.rng("c01.huge", i), l.internal_compression, len);
+        }
         let mut rng = ctx.rng("c01.probe", i);
         if (32..=35).contains(&(i % 80)) {
             // metadata above 1 MiB that compresses by far more than 1000:1 (one per codec in every 80 cases)
